@@ -24,6 +24,8 @@ pub enum Step {
     /// `s15`: the hook tells its own actor (empty plan) with a 15 ms timeout - on a full mailbox that is a wait
     /// that ends in Err(Timeout), never a self-deadlock and never an Ok for a message that was not accepted
     SelfTell(u64),
+    /// `S`: the hook calls stop() on its own actor (a graceful stop requested from inside)
+    SelfStop,
 }
 
 pub fn parse_plan(s: &str) -> Option<Vec<Step>> {
@@ -40,6 +42,10 @@ pub fn parse_plan(s: &str) -> Option<Vec<Step>> {
                     *i += 1
                 }
                 ',' | '-' => *i += 1,
+                'S' => {
+                    out.push(Step::SelfStop);
+                    *i += 1
+                }
                 's' => {
                     *i += 1;
                     let mut num = String::new();
@@ -291,6 +297,13 @@ fn run_plan<'a>(sh: &'a Arc<Shared>, me: usize, plan: Vec<Step>, mid: u64) -> fu
                         Err(_) => "other",
                     };
                     sh.log(format!("N tellRet {me} {mid2} {txt}"));
+                }
+                Step::SelfStop => {
+                    let r = sh.peers.lock().unwrap().get(me - 1).cloned().flatten();
+                    let Some(r) = r else { continue };
+                    sh.log(format!("N selfStop {me}"));
+                    // bounded: on a full mailbox a stop() from inside a handler could never be accepted
+                    let _ = tokio::time::timeout(Duration::from_millis(15), r.stop()).await;
                 }
                 Step::AskJoin { target, plan } => {
                     let mid2 = sh.next_mid.fetch_add(1, SeqCst);
@@ -797,6 +810,21 @@ pub fn order_oracles(trace: &[String]) -> Vec<String> {
             _ => {}
         }
     }
+    // C01: a tell that returned Ok before the actor's graceful on_stop began is handled before it (peers whose on_run is
+    // scripted to fail are left out: an on_run error ends the actor like a crash)
+    let spawn_line = trace.iter().find(|l| l.starts_with("> spawn")).cloned().unwrap_or_default();
+    for (t, m1, ok_pos) in &told {
+        if spawn_line.split_whitespace().any(|w| w == format!("runerr{t}")) {
+            continue;
+        }
+        let stop_at = trace.iter().enumerate().position(|(q, l)| q > *ok_pos && *l == format!("N stop {t} false"));
+        if let Some(q) = stop_at {
+            if started_at.get(m1).map_or(true, |p| *p > q) {
+                out.push(format!("message {m1} was told to actor {t} and the tell returned Ok before the actor's graceful on_stop began, yet it was not handled before on_stop (never was, or only afterwards)"));
+                break;
+            }
+        }
+    }
     // C02: a send that completed before another send to the same actor began is handled first
     'fifo: for (t, m1, ok_pos) in &told {
         for (m2, iss) in &issued_at {
@@ -822,6 +850,26 @@ pub fn order_oracles(trace: &[String]) -> Vec<String> {
                 }
                 _ => {}
             }
+        }
+    }
+    // C09: a tell into a full mailbox waits (and, timed, gives up with Err(Timeout)); it does not end its sender
+    let mut open_tells: std::collections::BTreeMap<usize, u64> = Default::default(); // sender -> mid of its self-tell in progress
+    for l in trace {
+        let ws: Vec<&str> = l.split_whitespace().collect();
+        match ws.as_slice() {
+            ["N", "tellStart", a, _b, mid] => {
+                open_tells.insert(num(a) as usize, num(mid));
+            }
+            ["N", "tellRet", a, _mid, _] => {
+                open_tells.remove(&(num(a) as usize));
+            }
+            ["N", "joined", a, how, ..] if *how == "deadlock" || *how == "panic" => {
+                if let Some(mid) = open_tells.get(&(num(a) as usize)) {
+                    out.push(format!("actor {a} was ended by a panic ({how}) in the middle of a tell to its own actor (message {mid}): a tell into a full mailbox waits for a slot or times out, it does not fail with a panic"));
+                    break;
+                }
+            }
+            _ => {}
         }
     }
     out
